@@ -141,6 +141,53 @@ def _table(repo, f, it):
                     break
     if isinstance(v, ast.Call) and U(v.func) in ("frozenset", "set", "tuple", "list") and len(v.args) == 1 and not v.keywords:
         v = v.args[0]
+    # a projection of another module-level table: (row.field for row in TABLE if row.flag) with TABLE rows plain records / tuples of
+    # constants - evaluated here, row by row
+    if isinstance(v, (ast.GeneratorExp, ast.ListComp, ast.SetComp)) and len(v.generators) == 1 and isinstance(v.generators[0].target, ast.Name) \
+            and isinstance(v.generators[0].iter, ast.Name) and isinstance(it, ast.Name) and v.generators[0].iter.id != it.id and not v.generators[0].is_async:
+        g_ = v.generators[0]
+        src = _table(repo, f, g_.iter) if g_.iter.id in repo.consts.get(f.mod, {}) else None
+        x_ = g_.target.id
+
+        def field_of(row, e):
+            """constant value of e (x, x.field, x[i]) for the row, or None"""
+            if isinstance(e, ast.Name) and e.id == x_:
+                return row if isinstance(row, ast.Constant) else None
+            if isinstance(e, ast.Attribute) and isinstance(e.value, ast.Name) and e.value.id == x_:
+                r_ = record_value(repo, f.mod, row, e.attr)
+                return r_ if isinstance(r_, ast.Constant) else None
+            if isinstance(e, ast.Subscript) and isinstance(e.value, ast.Name) and e.value.id == x_ and isinstance(e.slice, ast.Constant) and isinstance(e.slice.value, int) \
+                    and isinstance(row, (ast.Tuple, ast.List)) and -len(row.elts) <= e.slice.value < len(row.elts):
+                r_ = row.elts[e.slice.value]
+                return r_ if isinstance(r_, ast.Constant) else None
+            return None
+
+        def cond_of(row, t):
+            if isinstance(t, ast.UnaryOp) and isinstance(t.op, ast.Not):
+                c_ = cond_of(row, t.operand)
+                return None if c_ is None else not c_
+            if isinstance(t, ast.Compare) and len(t.ops) == 1 and isinstance(t.ops[0], (ast.Eq, ast.NotEq)) and isinstance(t.comparators[0], ast.Constant):
+                l_ = field_of(row, t.left)
+                return None if l_ is None else ((l_.value == t.comparators[0].value) == isinstance(t.ops[0], ast.Eq))
+            l_ = field_of(row, t)
+            return None if l_ is None else bool(l_.value)
+        if src is not None:
+            out_, ok_ = [], True
+            for row in src:
+                cs_ = [cond_of(row, t) for t in g_.ifs]
+                if any(c_ is None for c_ in cs_):
+                    ok_ = False
+                    break
+                if not all(cs_):
+                    continue
+                e_ = field_of(row, v.elt)
+                if e_ is None:
+                    ok_ = False
+                    break
+                out_.append(e_)
+            if ok_ and out_:
+                return out_
+        return None
     if isinstance(v, (ast.Tuple, ast.List, ast.Set)) and v.elts and len(v.elts) <= MAX_ROWS:
         local = {a.arg for a in ast.walk(f.node.args) if isinstance(a, ast.arg)} | {x.id for x in ast.walk(f.node) if isinstance(x, ast.Name) and isinstance(x.ctx, ast.Store)}
 
